@@ -15,6 +15,7 @@ func init() {
 	vHarnesses["VerifH_C15_edgeid"] = VerifH_C15_edgeid
 	vHarnesses["VerifH_C15_vertices"] = VerifH_C15_vertices
 	vHarnesses["VerifH_C15_lookup"] = VerifH_C15_lookup
+	vHarnesses["VerifH_C15_edges"] = VerifH_C15_edges
 }
 
 func c15List(ss ...string) *structpb.ListValue {
@@ -179,7 +180,25 @@ func (c *c15Source) GetCollectionInfo(ctx context.Context, in *Collection, opts 
 	return &CollectionInfo{SearchFields: []string{"from", "to"}}, nil
 }
 func (c *c15Source) GetIDs(ctx context.Context, in *Collection, opts ...grpc.CallOption) (GRIPSource_GetIDsClient, error) {
-	return nil, io.EOF
+	t := c.tables[in.Name]
+	if t == nil {
+		return nil, io.EOF
+	}
+	return &c15IDs{rows: t.rows}, nil
+}
+
+type c15IDs struct {
+	grpc.ClientStream
+	rows []*Row
+	pos  int
+}
+
+func (s *c15IDs) Recv() (*RowID, error) {
+	if s.pos >= len(s.rows) {
+		return nil, io.EOF
+	}
+	s.pos++
+	return &RowID{Id: s.rows[s.pos-1].Id}, nil
 }
 func (c *c15Source) GetRows(ctx context.Context, in *Collection, opts ...grpc.CallOption) (GRIPSource_GetRowsClient, error) {
 	t := c.tables[in.Name]
@@ -192,7 +211,23 @@ func (c *c15Source) GetRowsByID(ctx context.Context, opts ...grpc.CallOption) (G
 	return &c15ByIDRouter{src: c, reqs: make(chan *RowRequest, 10)}, nil
 }
 func (c *c15Source) GetRowsByField(ctx context.Context, in *FieldRequest, opts ...grpc.CallOption) (GRIPSource_GetRowsByFieldClient, error) {
-	return nil, io.EOF
+	t := c.tables[in.Collection]
+	if t == nil {
+		return nil, io.EOF
+	}
+	// the rows whose field holds exactly the requested string
+	var rows []*Row
+	for _, row := range t.rows {
+		if row.Data == nil {
+			continue
+		}
+		if f, ok := row.Data.Fields[in.Field]; ok {
+			if sv, ok := f.Kind.(*structpb.Value_StringValue); ok && sv.StringValue == in.Value {
+				rows = append(rows, row)
+			}
+		}
+	}
+	return &c15Rows{rows: rows}, nil
 }
 
 // the by-id stream names the collection in every request
@@ -334,4 +369,295 @@ func VerifH_C15_lookup() {
 		vAssert("C15.lookup.answer-per-request", nw == ng)
 	}
 	vAssert("C15.lookup.no-extra-answers", len(got) == want)
+}
+
+// ---- edges synthesised from link rows ----
+
+type c15Edge struct {
+	id, from, to, label, w string
+}
+
+// a link-table field: a row id in [q-s], the empty string, a number, or missing
+func c15LinkField(name string, data *structpb.Struct, field string) (string, bool) {
+	switch vChoice(name+".kind", 4) {
+	case 0:
+		s := c15ID(name, 'a', 'c')
+		data.Fields[field] = structpb.NewStringValue(s)
+		return s, true
+	case 1:
+		data.Fields[field] = structpb.NewStringValue("")
+		return "", false
+	case 2:
+		data.Fields[field] = structpb.NewNumberValue(1)
+		return "", false
+	}
+	return "", false
+}
+
+func c15EdgeMatches(o *gdbi.Edge, e c15Edge) bool {
+	return o != nil && o.ID == e.id && o.From == e.from && o.To == e.to && o.Label == e.label && o.Data["w"] == e.w
+}
+
+func c15LabelOK(filter []string, l string) bool {
+	return len(filter) == 0 || c15In(filter, l)
+}
+
+// VerifH_C15_edges: one edge per link row with non-empty string endpoints; the
+// edge listing, the edge lookup, the four adjacency channels (with label filter
+// and null emission) and the label listings agree with the graph the mapping
+// describes.
+func VerifH_C15_edges() {
+	NL := vParam("NL", 2)
+	BOTH := vParam("BOTH", 0)
+	l1 := c15ID("e1.label", 'A', 'B')
+	// row ids may begin with a character of their table's prefix
+	r1 := c15ID("t1.row", 'a', 'b')
+	r2 := c15ID("t2.row", 'a', 'b')
+	src := &c15Source{tables: map[string]*c15Table{
+		"t1": {rows: []*Row{{Id: r1, Data: c15Data("name", "one")}}},
+		"t2": {rows: []*Row{{Id: r2, Data: c15Data("name", "two")}}},
+		"lt": {},
+		"lu": {},
+	}}
+	var ref []c15Edge
+	nl := 1 + vChoice("linkrows", NL)
+	for i := 0; i < nl; i++ {
+		nm := "lt" + string(rune('0'+i))
+		w := c15ID(nm+".w", 'x', 'y')
+		data := c15Data("w", w)
+		var f, t string
+		var fok, tok bool
+		if i == 0 && vParam("FULL", 0) == 1 {
+			f, fok = c15LinkField(nm+".from", data, "from")
+			t, tok = c15LinkField(nm+".to", data, "to")
+		} else if i == 0 {
+			// quick tier: one field of the pair is a row id, the other of any kind
+			if vChoice(nm+".odd-side", 2) == 0 {
+				f, fok = c15ID(nm+".from", 'a', 'c'), true
+				data.Fields["from"] = structpb.NewStringValue(f)
+				t, tok = c15LinkField(nm+".to", data, "to")
+			} else {
+				t, tok = c15ID(nm+".to", 'a', 'c'), true
+				data.Fields["to"] = structpb.NewStringValue(t)
+				switch vChoice(nm+".from.kind", 3) {
+				case 0:
+					data.Fields["from"] = structpb.NewStringValue("")
+				case 1:
+					data.Fields["from"] = structpb.NewNumberValue(1)
+				}
+			}
+		} else {
+			// further rows: a link (possibly a repeated one) or a row without target
+			f, fok = c15ID(nm+".from", 'a', 'c'), true
+			data.Fields["from"] = structpb.NewStringValue(f)
+			if vChoice(nm+".to.kind", 2) == 0 {
+				t, tok = c15ID(nm+".to", 'a', 'c'), true
+			}
+			data.Fields["to"] = structpb.NewStringValue(t)
+		}
+		src.tables["lt"].rows = append(src.tables["lt"].rows, &Row{Id: "k" + string(rune('0'+i)), Data: data})
+		if fok && tok {
+			ref = append(ref, c15Edge{id: "a:" + f + "-" + l1 + "-b:" + t, from: "a:" + f, to: "b:" + t, label: l1, w: w})
+		}
+	}
+	conf := GraphConfig{
+		Vertices: map[string]VertexConfig{
+			"a:": {Label: "VA", Data: ElementConfig{Source: "s", Collection: "t1"}},
+			"b:": {Label: "VB", Data: ElementConfig{Source: "s", Collection: "t2"}},
+		},
+		Edges: map[string]EdgeConfig{
+			"e1": {From: "a:", To: "b:", Label: l1, Data: ElementConfig{Source: "s", Collection: "lt", FromField: "from", ToField: "to"}},
+		},
+	}
+	labels := []string{l1}
+	if BOTH == 1 && vChoice("second-edge-table", 2) == 1 {
+		// a second link table in the opposite direction
+		l2 := c15ID("e2.label", 'A', 'B')
+		w := c15ID("lu0.w", 'x', 'y')
+		data := c15Data("w", w)
+		f, fok := c15LinkField("lu0.from", data, "src")
+		t, tok := c15LinkField("lu0.to", data, "dst")
+		src.tables["lu"].rows = append(src.tables["lu"].rows, &Row{Id: "m0", Data: data})
+		if fok && tok {
+			ref = append(ref, c15Edge{id: "b:" + f + "-" + l2 + "-a:" + t, from: "b:" + f, to: "a:" + t, label: l2, w: w})
+		}
+		conf.Edges["e2"] = EdgeConfig{From: "b:", To: "a:", Label: l2, Data: ElementConfig{Source: "s", Collection: "lu", FromField: "src", ToField: "dst"}}
+		if l2 != l1 {
+			labels = append(labels, l2)
+		}
+	}
+	g, err := NewTabularGraph(conf, map[string]GRIPSourceClient{"s": src})
+	vAssert("C15.edges.graph-builds", err == nil)
+	if err != nil {
+		return
+	}
+	ctx := context.Background()
+	switch vChoice("observation", 4) {
+	case 0: // edge listing
+		var got []*gdbi.Edge
+		for e := range g.GetEdgeList(ctx, true) {
+			got = append(got, e)
+		}
+		vReach("c15.edges.listed")
+		vAssert("C15.edges.list-count", len(got) == len(ref))
+		for _, e := range ref {
+			nw, ng := 0, 0
+			for _, e2 := range ref {
+				if e2 == e {
+					nw++
+				}
+			}
+			for _, o := range got {
+				if c15EdgeMatches(o, e) {
+					ng++
+				}
+			}
+			vAssert("C15.edges.list-exact", nw == ng)
+		}
+	case 1: // edge lookup by id
+		for _, e := range ref {
+			o := g.GetEdge(e.id, true)
+			// repeated links share one id: any of their rows may answer
+			ok := false
+			for _, e2 := range ref {
+				if e2.id == e.id && c15EdgeMatches(o, e2) {
+					ok = true
+				}
+			}
+			vAssert("C15.edges.lookup", ok)
+		}
+		vAssert("C15.edges.lookup-absent", g.GetEdge("a:z-"+l1+"-b:z", true) == nil && g.GetEdge("nonsense", true) == nil)
+	case 2: // label listings and label scan
+		el, err := g.ListEdgeLabels()
+		okl := err == nil && len(el) == len(labels)
+		for _, l := range labels {
+			okl = okl && c15In(el, l)
+		}
+		vAssert("C15.edges.labels", okl)
+		vl, err := g.ListVertexLabels()
+		vAssert("C15.vertices.labels", err == nil && len(vl) == 2 && c15In(vl, "VA") && c15In(vl, "VB"))
+		var ids []string
+		for id := range g.VertexLabelScan(ctx, "VB") {
+			ids = append(ids, id)
+		}
+		vAssert("C15.vertices.label-scan", len(ids) == 1 && ids[0] == "b:"+r2)
+	default: // adjacency channels
+		c15Adjacency(g, ref, l1, r1, r2)
+	}
+}
+
+func c15Adjacency(g *TabularGraph, ref []c15Edge, l1, r1, r2 string) {
+	ctx := context.Background()
+	dir := vChoice("direction", 2)   // 0 = out, 1 = in
+	toEdge := vChoice("to-edge", 2)  // adjacent edges or adjacent vertices
+	emitNull := vChoice("emit-null", 2) == 1
+	var filter []string
+	switch vChoice("label-filter", 3) {
+	case 1:
+		filter = []string{l1}
+	case 2:
+		filter = []string{"B"}
+	}
+	starts := []string{"a:" + r1, "b:" + r2, "a:c", "b:c", "zz"}
+	n := 1 + vChoice("requests", 2)
+	reqs := make([]gdbi.ElementLookup, n)
+	req := make(chan gdbi.ElementLookup, n)
+	for i := 0; i < n; i++ {
+		var start string
+		if n == 1 {
+			start = starts[vChoice("req0", len(starts))]
+		} else {
+			// two requests: the rows of the two tables in either order
+			start = starts[(i+vChoice("req-order", 2))%2]
+		}
+		reqs[i] = gdbi.ElementLookup{ID: start, Ref: &gdbi.BaseTraveler{}}
+		req <- reqs[i]
+	}
+	close(req)
+	var ch chan gdbi.ElementLookup
+	switch {
+	case dir == 0 && toEdge == 1:
+		ch = g.GetOutEdgeChannel(ctx, req, true, emitNull, filter)
+	case dir == 1 && toEdge == 1:
+		ch = g.GetInEdgeChannel(ctx, req, true, emitNull, filter)
+	case dir == 0:
+		ch = g.GetOutChannel(ctx, req, true, emitNull, filter)
+	default:
+		ch = g.GetInChannel(ctx, req, true, emitNull, filter)
+	}
+	var got []gdbi.ElementLookup
+	for o := range ch {
+		got = append(got, o)
+	}
+	vReach("c15.edges.adjacency-ran")
+	total := 0
+	for _, r := range reqs {
+		// the edges of the described graph that this request reaches
+		var want []c15Edge
+		for _, e := range ref {
+			if c15LabelOK(filter, e.label) && ((dir == 0 && e.from == r.ID) || (dir == 1 && e.to == r.ID)) {
+				want = append(want, e)
+			}
+		}
+		var mine []gdbi.ElementLookup
+		for _, o := range got {
+			if o.Ref == r.Ref {
+				mine = append(mine, o)
+			}
+		}
+		if toEdge == 1 {
+			if len(want) == 0 && emitNull {
+				vAssert("C15.adj.null-edge-when-none", len(mine) == 1 && mine[0].Edge == nil)
+				total++
+				continue
+			}
+			vAssert("C15.adj.edge-count", len(mine) == len(want))
+			for _, e := range want {
+				nw, ng := 0, 0
+				for _, e2 := range want {
+					if e2 == e {
+						nw++
+					}
+				}
+				for _, o := range mine {
+					if c15EdgeMatches(o.Edge, e) {
+						ng++
+					}
+				}
+				vAssert("C15.adj.edges-exact", nw == ng)
+			}
+			total += len(want)
+			continue
+		}
+		// adjacent vertices: one per reached edge whose far endpoint is a table row
+		if len(want) == 0 && emitNull {
+			vAssert("C15.adj.null-vertex-when-none", len(mine) == 1 && mine[0].Vertex == nil)
+			total++
+			continue
+		}
+		nv := 0
+		for _, e := range want {
+			far := e.to
+			if dir == 1 {
+				far = e.from
+			}
+			if far == "a:"+r1 || far == "b:"+r2 {
+				nv++
+			}
+		}
+		vAssert("C15.adj.vertex-count", len(mine) == nv)
+		for _, o := range mine {
+			ok := o.Vertex != nil && ((o.Vertex.ID == "a:"+r1 && o.Vertex.Label == "VA" && o.Vertex.Data["name"] == "one") ||
+				(o.Vertex.ID == "b:"+r2 && o.Vertex.Label == "VB" && o.Vertex.Data["name"] == "two"))
+			far := false
+			for _, e := range want {
+				if o.Vertex != nil && ((dir == 0 && e.to == o.Vertex.ID) || (dir == 1 && e.from == o.Vertex.ID)) {
+					far = true
+				}
+			}
+			vAssert("C15.adj.vertices-exact", ok && far)
+		}
+		total += nv
+	}
+	vAssert("C15.adj.no-extra-answers", len(got) == total)
 }
